@@ -17,10 +17,11 @@ func TestSnapshotRoundTrip(t *testing.T) {
 		//                 ins rem upd s/l srch get
 		Weights:  [6]int{9, 4, 2, 4, 1, 0},
 		Boundary: true,
+		Tall:     true,
 	})
 	pbt.Run(t, pbt.Prop[idxsm.History]{
 		ID: "C08", Name: "TestSnapshotRoundTrip",
-		Rule:    "rapid-generated index histories (insert/remove/update, small id pool, M in {1..16}; metadata incl. nil/empty/empty-key/non-UTF8 and, in 1 of 20 inserts, keys of 255/256/300 bytes and values of 65535/65536/70000 bytes) with save/load steps at arbitrary points: header on/off, target fresh or used (5 other items), reader fragmenting reads by a generated cyclic size list (1..1000 bytes); oracle = Load returns nil, zero bytes left, dump before == dump after (ids, vector bits, metadata, levels, live links with bit-identical distances, entry point, item/byte counters recomputed), re-save has equal length; history continues on the loaded index; non-trivial = a save/load of a state that has a tombstoned-neighbour link, or that was read through a fragmenting reader, or into a used index; distinct = distinct case JSON",
+		Rule:    "rapid-generated index histories (insert/remove/update, small id pool, M in {1..16}; a quarter of the histories with M in {1,2} and mostly multi-layer items; removals aimed at the current entry point or at its nearest neighbour on its top linked layer in half of the removes; metadata incl. nil/empty/empty-key/non-UTF8 and, in 1 of 20 inserts, keys of 255/256/300 bytes and values of 65535/65536/70000 bytes) with save/load steps at arbitrary points: header on/off, target fresh or used (5 other items), reader fragmenting reads by a generated cyclic size list (1..1000 bytes); oracle = Load returns nil, zero bytes left, dump before == dump after (ids, vector bits, metadata, levels, live links with bit-identical distances, entry point, item/byte counters recomputed), re-save has equal length; history continues on the loaded index; non-trivial = a save/load of a state that has a tombstoned-neighbour link, or that was read through a fragmenting reader, or into a used index; distinct = distinct case JSON",
 		Journal: true,
 		Gen:     func(t *rapid.T) idxsm.History { return g.Draw(t, "history") },
 		Check: func(h idxsm.History, o *pbt.Obs) *pbt.Failure {
